@@ -41,6 +41,7 @@ def o1_scalar(h):
     from ..jxh import Case
     CO = _co()
     h.encoded(CO.fischer_burmeister)
+    h.assume_note('none (no stub; the square root is encoded by its defining relation s >= 0, s^2 = radicand)')
     h.bounds('c, l: all reals; k: all reals > 0; t: all reals >= 0')
     h.outside('IEEE rounding of sqrt(ck^2 + l^2) - ck - l (cancellation when ck, l >> t)')
     ex = dict(c=0.3, l=0.2, k=1.5, t=0.1)
@@ -97,6 +98,7 @@ def _smp_inst(rng):
 
 
 def _o1_notes(h, CO, affine):
+    h.outside('other instances (the statements are about the plumbing of the class, which does not depend on the callables); IEEE rounding')
     h.encoded(CO.fischer_burmeister, CO.ConstrainedObjective.__init__, CO.ConstrainedObjective.create_augmented_lagrangian,
               CO.ConstrainedObjective.total_residual, CO.ConstrainedObjective.constrained_residual, CO.ConstrainedObjective.gradient,
               CO.ConstrainedObjective.ncp, CO.ConstrainedObjective.constraint)
@@ -152,6 +154,7 @@ def o1_norm(h):
     CO = _co()
     h.encoded(CO.fischer_burmeister)
     h.bounds('c, l and three other residual entries: all reals; k > 0, tol > 0: all reals')
+    h.outside('IEEE rounding; more than 4 residual entries in one query (the argument is per entry and independent of the others)')
     h.assume_note('composition (by substitution of the exact equalities of O1.total_residual_wiring) is stated, the monolithic instance query is O1.total_residual_instance (thorough tier)')
     smp = lambda rng: [rng.normal(size=3), rng.normal(), rng.normal(), abs(rng.normal()) + 0.1, abs(rng.normal()) + 0.01]
     c = Case(h, lambda r, c, l, k, tol: CO.fischer_burmeister(c, l, k), dict(r=onp.array([0.1, -0.2, 0.05]), c=0.3, l=0.2, k=1.5, tol=0.1), sampler=smp, label='fb_in_norm')
@@ -275,6 +278,7 @@ def o3_std(h):
     h.encoded(CO.ConstrainedObjective.create_augmented_lagrangian)
     h.bounds('one constraint value c, multiplier l: all reals; k > 0: all reals; two-point statements over all pairs (c1,l1), (c2,l2)')
     h.assume_note('the penalty is isolated by passing objective_func = 0 and constraint_func = identity to the real create_augmented_lagrangian')
+    h.outside('second derivatives at the switch (the penalty is C1, not C2); IEEE rounding')
     _o3_scalar(h, False)
 
 
@@ -285,6 +289,7 @@ def o3_quasi(h):
     h.encoded(CO.ConstrainedQuasiObjective.create_augmented_lagrangian)
     h.bounds('one constraint value c, multiplier l: all reals; k > 0: all reals')
     h.assume_note('the penalty is isolated by passing objective_func = 0 and constraint_func = identity to the real create_augmented_lagrangian')
+    h.outside('the dependence of the quasi objective itself on the multipliers (objective_func(x, l, p)); IEEE rounding')
     _o3_scalar(h, True)
 
 
@@ -299,6 +304,7 @@ def o3_instance(h):
     h.encoded(CO.ConstrainedObjective.__init__, CO.ConstrainedObjective.create_augmented_lagrangian, CO.ConstrainedObjective.gradient)
     h.bounds('n=2, m=2 (one affine, one bilinear constraint), general quadratic + cubic objective with 8 symbolic coefficients; x, lam all reals; kappa > 0')
     h.assume_note('oracle: jax.grad of the plain Lagrangian f - mu.c of the same instance with mu an independent input, equated under mu = max(lam - kappa c, 0)')
+    h.outside('that jax.grad differentiates correctly (JAX trusted); other instances')
     obj, con = _instance(CO)
 
     def F(x, p, lam, kappa, mu):
@@ -755,23 +761,35 @@ O4_ITS = (0, 1, 2, 3, 7)
 
 
 def _reg_o4():
-    for (newton_only, second_order, tag) in ((False, False, 'first_order'), (False, True, 'second_order'), (True, False, 'newton_only')):
-        for (n, m) in ((1, 1), (2, 2)):
-            for it in (O4_ITS if tag != 'first_order' else (0, 3)):
-                quick = n == 1 and it in (0, 3)
+    plan = []
+    for tag in ('first_order', 'second_order', 'newton_only'):
+        for it in ((0, 3) if tag == 'first_order' else O4_ITS):
+            plan.append((tag, 1, 1, it, None, ('quick', 'thorough') if it in (0, 3) else ('thorough',)))
+    plan.append(('first_order', 2, 2, 0, None, ('thorough',)))
+    plan.append(('newton_only', 2, 2, 3, None, ('thorough',)))
+    for it in (0, 3):
+        for w in range(O4_NSHARD):
+            plan.append(('second_order', 2, 2, it, (w, O4_NSHARD), ('thorough',)))
+    for (tag, n, m, it, shard, tiers) in plan:
+        newton_only, second_order = tag == 'newton_only', tag == 'second_order'
 
-                def ob(h, n=n, m=m, it=it, newton_only=newton_only, second_order=second_order, tag=tag):
-                    _o4_notes(h, n, m)
-                    import jax.numpy as jnp
-                    h.fact('norm_of_boolean_is_1_or_0', float(jnp.linalg.norm(jnp.asarray(1.0) < jnp.asarray(2.0))) == 1.0 and float(jnp.linalg.norm(jnp.asarray(3.0) < jnp.asarray(2.0))) == 0.0,
-                           'jnp.linalg.norm(True) = 1.0, jnp.linalg.norm(False) = 0.0 (the line-search acceptance test applies norm to a comparison)')
-                    px.run_px(h, 'al_step', make_al_step_harness(n, m, it, newton_only, second_order), cap=30, div_mode='goal', sqrt_mode='goal', feas_ms=150)
-                ob.__doc__ = ('one outer iteration (index it=%d) of the real augmented_lagrange_solve (%s mode, n=%d, m=%d) from an arbitrary loop-head state: return only behind '
-                              'norm(total_residual) < tol with the multipliers current at return; line search restores lam on every rejected trial; lam >= 0 at the end of '
-                              'the iteration; kappa never decreases; callback first and at return' % (it, tag, n, m))
-                obligation(P, 'O4.al_iteration[%s,n=%d,m=%d,it=%d]' % (tag, n, m, it), tiers=('quick', 'thorough') if quick else ('thorough',), cap=900)(ob)
+        def ob(h, n=n, m=m, it=it, newton_only=newton_only, second_order=second_order, shard=shard):
+            _o4_notes(h, n, m)
+            import jax.numpy as jnp
+            h.fact('norm_of_boolean_is_1_or_0', float(jnp.linalg.norm(jnp.asarray(1.0) < jnp.asarray(2.0))) == 1.0 and float(jnp.linalg.norm(jnp.asarray(3.0) < jnp.asarray(2.0))) == 0.0,
+                   'jnp.linalg.norm(True) = 1.0, jnp.linalg.norm(False) = 0.0 (the line-search acceptance test applies norm to a comparison)')
+            px.run_px(h, 'al_step', make_al_step_harness(n, m, it, newton_only, second_order), cap=30, div_mode='goal', sqrt_mode='goal', feas_ms=150,
+                      shard=shard, shard_depth=4)
+        ob.__doc__ = ('one outer iteration (index it=%d) of the real augmented_lagrange_solve (%s mode, n=%d, m=%d) from an arbitrary loop-head state: return only behind '
+                      'norm(total_residual) < tol with the multipliers current at return; line search restores lam on every rejected trial; lam >= 0 at the end of '
+                      'the iteration; kappa never decreases; callback first and at return' % (it, tag, n, m))
+        nm = 'O4.al_iteration[%s:n=%d:m=%d:it=%d]' % (tag, n, m, it)
+        if shard:
+            nm += '[shard %d/%d]' % shard
+        obligation(P, nm, tiers=tiers, cap=900)(ob)
 
 
+O4_NSHARD = 6
 _reg_o4()
 
 
@@ -938,6 +956,7 @@ def o5_bco(h):
              'preconditioner diagonal > 0, constraintStiffnessScaling > 0: all reals')
     h.assume_note('stub: the preconditioner strategy returns a matrix object whose diagonal() is a symbolic positive vector; scipy sparse_diags in '
                   'ScaledPrecondStrategy.__init__ (and the onp.array conversion feeding it) is replaced by a no-op (it only stores the matrix for later preconditioner assembly)')
+    h.outside('the assembled preconditioner matrices (ScaledPrecondStrategy.precond_at_attempt, sparse Cholesky): owned by the linear-solver properties; upper bounds (the class only supports x_i >= 0)')
     from .. import jx
     jx.OTHER['scatter-mul'] = _scatter_mul
     jx.OTHER['scatter_mul'] = _scatter_mul
@@ -1051,6 +1070,7 @@ def o5_driver(h):
     h.encoded('optimism.BoundConstrainedSolver:bound_constrained_solve (real source)')
     h.bounds('n=2 unknowns; symbolic start, scaling vectors, warm-start increment and AL output; all 4 combinations of useWarmStart/updatePrecond')
     h.assume_note('stubs: WarmStart.warm_start_increment returns an arbitrary vector; AlSolver.augmented_lagrange_solve returns an arbitrary point (its behaviour is O4)')
+    h.outside('whether the warm-started point is feasible; the quality of the warm-start increment')
     for ws in (True, False):
         for up in (True, False):
             px.run_px(h, 'driver[warm=%s,precond=%s]' % (ws, up), make_bound_driver_harness(ws, up), cap=20)
@@ -1103,6 +1123,7 @@ class RealBoundObjective:
         self.ex, self.F = ex, _o6_fns()
         self.ctx = jx.Ctx() if ex.symbolic else None
         self.nside = 0
+        self.mark_total = 0
         self.p = p
         lam0, kap0, sc, inv, ck = self._call('init', x0, p)
         self.lam, self.kappa = lam0, kvec(kap0)
@@ -1144,6 +1165,7 @@ class RealBoundObjective:
         return self._call('ncp', x, self.p, self.lam, self.kappa)
 
     def total_residual(self, x):
+        self.mark_total = len(self.ex.pc)     # the path-condition entries from here on define this residual and what is tested on it
         return self._call('total_residual', x, self.p, self.lam, self.kappa)
 
     def reset_kappa(self):
@@ -1199,6 +1221,7 @@ def make_convex_harness(max_iters, with_failure):
         if raised is None:
             x = xr[0]
             lam = obj.lam[0]
+            tail = (list(obj.ctx.side) + list(ex.pc[obj.mark_total:])) if ex.symbolic else []
             k0, kcur = float(obj.constraintKappa[0]), obj.kappa[0]
             zt = px.unwrap(tol)
             # constrained minimiser of a x^2/2 + b x over x >= 0: a x* = max(-b, 0); multiplier lam* = max(b, 0)
@@ -1213,7 +1236,17 @@ def make_convex_harness(max_iters, with_failure):
                     ('complementarity_min_kappa0_x_lam_within_2tol', Le(sym.v_min(px.unwrap(k0 * x), px.unwrap(lam)), px.unwrap(2.0 * tol), scale=zt)),
                     ('penalty_within_64_times_initial', Holds(sym.v_and(sym.v_le(k0, px.unwrap(kcur)), sym.v_le(px.unwrap(kcur), 64.0 * k0))))]
             for nm, at in cuts:
-                ex.goal(nm, at)
+                if ex.symbolic and nm != 'returned_multiplier_nonnegative':
+                    # hypotheses: the sqrt definitions of the objective evaluations + the tail of the path condition (last total_residual, its norm, the
+                    # `errorNorm < tol` decision) + multiplier sign; a subset of the path condition, so the cut is sound
+                    saved = ex.pc
+                    ex.pc = tail + [px._z(tol > 0), z3.Not(cuts[2][1].neg(0))]
+                    try:
+                        ex.goal(nm, at)
+                    finally:
+                        ex.pc = saved
+                else:
+                    ex.goal(nm, at)
             # conclusions from the cut facts alone (+ the parameter box): the iteration history is irrelevant to them
             if ex.symbolic:
                 hyps = [px._z(c) for c in (a >= 0.1, a <= 10.0, tol > 0)]
@@ -1249,11 +1282,19 @@ def _o6_notes(h, iters, with_failure):
               'n >= 2; non-quadratic objectives')
 
 
-@obligation(P, 'O6.bounded_convex[iters=2]', cap=600)
-def o6_2(h):
-    """real bound_constrained_solve + real augmented_lagrange_solve + real objective jaxprs, 2 outer iterations unrolled: every
-    return delivers the constrained minimiser (a|x - x*| <= 80 tol), the KKT multiplier (within 210 tol), lam >= 0 at every
-    callback, penalties non-decreasing"""
-    _o6_notes(h, 2, False)
-    px.run_px(h, 'convex', make_convex_harness(2, False), cap=60, div_mode='goal', sqrt_mode='goal', feas_ms=300,
+@obligation(P, 'O6.bounded_convex[iters=3]', cap=900)
+def o6_3(h):
+    """real bound_constrained_solve + real augmented_lagrange_solve + real objective jaxprs, 3 outer iterations unrolled (the
+    design's unwinding bound): every return delivers the constrained minimiser (a|x - x*| <= 80 tol) and the KKT multiplier
+    (within 210 tol); lam >= 0 at every callback, penalties non-decreasing"""
+    _o6_notes(h, 3, False)
+    px.run_px(h, 'convex', make_convex_harness(3, False), cap=60, div_mode='goal', sqrt_mode='goal', feas_ms=300,
+              expect_goals=['returned_point_is_constrained_minimiser_within_80_tol_over_a', 'returned_multiplier_within_210_tol_of_kkt_multiplier'])
+
+
+@obligation(P, 'O6.bounded_convex_with_solver_failures[iters=3]', tiers=('thorough',), cap=900)
+def o6_3f(h):
+    """3 outer iterations; the sub-solver may also report failure and return an arbitrary point"""
+    _o6_notes(h, 3, True)
+    px.run_px(h, 'convex', make_convex_harness(3, True), cap=60, div_mode='goal', sqrt_mode='goal', feas_ms=300,
               expect_goals=['returned_point_is_constrained_minimiser_within_80_tol_over_a', 'returned_multiplier_within_210_tol_of_kkt_multiplier'])
